@@ -48,6 +48,10 @@ def orig_parse_range_header(value, make_inclusive=True):
             if begin < last_end or last_end < 0:
                 return None
             if end_str:
+                if end_str.startswith("-"):
+                    # _plain_int accepts a sign, a position does not have one
+                    return None
+
                 try:
                     end = _plain_int(end_str) + 1
                 except ValueError:
@@ -151,7 +155,10 @@ def main():
              "bytes=0-0", "bytes=0-,5-6", "bytes=-5,0-1", "bytes=-5,-6", "bytes=0-,-5",
              "bytes=5-3", "bytes=0-4,3-9", "bytes=0-4,5-9", "bytes=0-4,4-9",
              "bytes=1-2=3", "=0-1", "bytes = 0 - 1 , 5 - ", "bytes=--5", "bytes=- 5",
-             b"bytes=0-1", 5, 0, [], ["bytes=0-1"], "bytes=0-1,", ",", "bytes=,0-1"]
+             b"bytes=0-1", 5, 0, [], ["bytes=0-1"], "bytes=0-1,", ",", "bytes=,0-1",
+             # signed last-byte position (rejected since the fix in the original)
+             "bytes=0--0", "bytes=0- -0", "bytes=00--00", "bytes=0--0,5-9", "bytes=0--1",
+             "bytes=0-1,2--2", "bytes=3--0", "bytes=0---0"]
 
     # exhaustive small grammar: up to 3 items over a small alphabet of item shapes
     shapes = ["0-1", "2-", "-3", "5-9", "1-1", "3-2", "-", "", "x", "4", "0-1-2", " 7 - 8 ",
